@@ -40,6 +40,8 @@ func checkC09(p *Prog, r *Report) {
 	c09Dispatch(p, r)
 	c09Routing(p, r)
 	c09IdentifierCompare(p, r, "C09.identifier-compare")
+	// the current keyspace handed to the parser must keep the USE statement's quoting
+	keyspaceWrites(p, r, "C09.current-keyspace")
 }
 
 func c09Tables(p *Prog, r *Report) {
